@@ -8,6 +8,7 @@ use crate::gen_::uplc::{self as gu, T};
 use crate::props::c15::enrich;
 use aiken_lang::ast::ModuleKind;
 use aiken_project::blueprint::{Blueprint, definitions::Definitions, parameter::Parameter, schema::{Annotated, Schema}, validator::Validator};
+use num_bigint::BigInt;
 use serde_json::json;
 use std::path::{Path, PathBuf};
 use uplc::ast::{Constant, DeBruijn, FakeNamedDeBruijn, Name, NamedDeBruijn, Program, SerializableProgram};
@@ -217,6 +218,7 @@ fn decode_all(bytes: &[u8], st: &mut Stats) -> CheckResult {
     let as_text = String::from_utf8_lossy(bytes).to_string();
     let _ = no_panic(|| Program::<DeBruijn>::from_hex(&as_text, &mut b1, &mut b2).map(|_| ())).map_err(|p| panic_failure("from_hex(text)", p, input.clone()))?;
     st.class(if accepted { "binary:accepted" } else { "binary:rejected" });
+    st.sample(|| json!({"entry": "from_flat/from_cbor/from_hex (4 binder forms)", "outcome": if accepted { "accepted by at least one decoder" } else { "rejected by all" }, "hex": hex::encode(&bytes[..bytes.len().min(120)])}));
     if accepted || bytes.len() >= 8 {
         st.nontrivial(bytes);
     }
@@ -231,6 +233,7 @@ fn uplc_text(text: &str, st: &mut Stats) -> CheckResult {
         Ok(p) => {
             st.class("uplc-text:accepted");
             st.nontrivial(text);
+            st.sample(|| json!({"entry": "uplc::parser::program", "outcome": "accepted", "text": text.chars().take(300).collect::<String>()}));
             // printing what was parsed must not panic and must parse again
             let printed = no_panic(|| p.to_pretty()).map_err(|pn| panic_failure("to_pretty(parsed)", pn, input.clone()))?;
             let again = no_panic(|| uplc::parser::program(&printed)).map_err(|pn| panic_failure("uplc::parser::program(printed)", pn, input.clone()))?;
@@ -249,7 +252,32 @@ fn uplc_text(text: &str, st: &mut Stats) -> CheckResult {
     Ok(())
 }
 
+/// Deepest nesting of `(` reached anywhere in the text (unbalanced openers count too).
+fn paren_depth(text: &str) -> usize {
+    let (mut d, mut max) = (0usize, 0usize);
+    for b in text.bytes() {
+        match b {
+            b'(' => {
+                d += 1;
+                max = max.max(d);
+            }
+            b')' => d = d.saturating_sub(1),
+            _ => {}
+        }
+    }
+    max
+}
+
+/// Known finding `slow:aiken-parser:nested-parens`: parse time doubles with every level of
+/// parenthesis nesting. Inputs nested deeper than this are excluded by construction (and counted)
+/// so that the search continues behind the finding instead of tripping the watchdog.
+const MAX_PAREN_DEPTH: usize = 10;
+
 fn aiken_text(text: &str, st: &mut Stats) -> CheckResult {
+    if paren_depth(text) > MAX_PAREN_DEPTH {
+        st.class("excluded:known-finding:nested-parens");
+        return Ok(());
+    }
     let input = json!({"source": text});
     let r = no_panic(|| aiken_lang::parser::module(text, ModuleKind::Validator)).map_err(|p| panic_failure("aiken_lang::parser::module", p, input.clone()))?;
     match r {
@@ -261,6 +289,7 @@ fn aiken_text(text: &str, st: &mut Stats) -> CheckResult {
         }
         Err(errs) => {
             st.class("aiken-text:rejected");
+            st.sample(|| json!({"entry": "aiken_lang::parser::module", "outcome": "rejected", "errors": errs.len(), "source": text.chars().take(300).collect::<String>()}));
             // error rendering is what the user sees: it must not panic either
             let _ = no_panic(|| errs.iter().map(|e| format!("{e:?}").len()).sum::<usize>()).map_err(|p| panic_failure("ParseError::fmt", p, input.clone()))?;
             if text.len() >= 8 {
@@ -496,12 +525,41 @@ pub fn run(cx: &mut Cx) -> String {
             let input = json!({"parameter": param.title, "schema": serde_json::to_value(&param.schema).unwrap_or_default(), "constant": consts::show_const(&c)});
             let r = no_panic(|| param.validate(defs, &c)).map_err(|p| panic_failure("Parameter::validate", p, input.clone()))?;
             st.class(if r.is_ok() { "validate:accepted" } else { "validate:rejected" });
+            st.sample(|| json!({"entry": "Parameter::validate", "outcome": if r.is_ok() { "accepted" } else { "rejected" }, "input": input}));
             if let Err(e) = r {
                 let _ = no_panic(|| format!("{e:?}").len()).map_err(|p| panic_failure("blueprint::Error::fmt", p, input.clone()))?;
             }
             st.nontrivial(&(param.title.clone(), consts::show_const(&c)));
             Ok(())
         });
+    }
+
+    // 5.b fixed regression grid (worker 0, every run, independent of generator details): the
+    // inputs that exposed earlier (now repaired) defects, and every (tag, field count) pair
+    // against every shipped schema
+    if !cx.is_replay() && cx.worker == 0 {
+        for hx in ["ff010000085bffffffffffffffff08000008080401", "01000034800d28", "ff0100ffffffffffffffffffff01", "010000ffffffffffffffffffffff0101"] {
+            let bytes = hex::decode(hx).unwrap();
+            cx.direct("regression-bytes", &json!({"hex": hx}), |st| {
+                st.eval();
+                decode_all(&bytes, st)
+            });
+        }
+        for (i, (param, defs)) in params.iter().enumerate() {
+            for tag in 0..4u64 {
+                for nfields in 0..5usize {
+                    let d = uplc::ast::Data::constr(tag, (0..nfields).map(|k| consts::pd_int(&BigInt::from(k as i64 - 3))).collect());
+                    let c = Constant::Data(d);
+                    let input = json!({"parameter": param.title, "index": i, "tag": tag, "fields": nfields});
+                    cx.direct("regression-tag-arity-grid", &input, |st| {
+                        st.eval();
+                        let r = no_panic(|| param.validate(defs, &c)).map_err(|p| panic_failure("Parameter::validate", p, input.clone()))?;
+                        st.class(if r.is_ok() { "validate:accepted" } else { "validate:rejected" });
+                        Ok(())
+                    });
+                }
+            }
+        }
     }
 
     // 6. aiken.toml
@@ -568,7 +626,24 @@ fn deep_case(shape: &str, depth: usize, st: &mut Stats) -> CheckResult {
         "uplc-apply" => uplc_text(&format!("(program 1.1.0 {})", rep("[(lam x x) ", "(con integer 1)", "]")), st),
         "uplc-force" => uplc_text(&format!("(program 1.1.0 {})", rep("(force ", "(con integer 1)", ")")), st),
         "uplc-list-type" => uplc_text(&format!("(program 1.1.0 (con {} {}))", rep("(list ", "integer", ")"), rep("[", "", "]")), st),
-        "aiken-parens" => aiken_text(&format!("fn f() {{ {} }}", rep("(", "1", ")")), st),
+        "aiken-parens" => {
+            // probe for the known finding: time a 9-deep and a 17-deep parenthesised literal
+            let time = |d: usize| {
+                let src = format!("fn f() {{ {}1{} }}", "(".repeat(d), ")".repeat(d));
+                let t = std::time::Instant::now();
+                let _ = no_panic(|| aiken_lang::parser::module(&src, ModuleKind::Validator).map(|_| ()));
+                t.elapsed().as_secs_f64()
+            };
+            let (t9, t17) = (time(9), time(17));
+            if t17 > 1.0 && t17 > 30.0 * t9 {
+                return Err(Failure::new(
+                    "slow:aiken-parser:nested-parens",
+                    json!({"input": {"shape": shape, "depth": depth}, "seconds_depth_9": t9, "seconds_depth_17": t17,
+                           "note": "parse time of `((..(1)..))` doubles per nesting level (tuple and parenthesised-block alternatives both re-parse the inner expression)"}),
+                ));
+            }
+            aiken_text(&format!("fn f() {{ {} }}", rep("(", "1", ")")), st)
+        }
         "aiken-list" => aiken_text(&format!("const x = {}", rep("[", "", "]")), st),
         "aiken-not" => aiken_text(&format!("fn f() {{ {}True }}", "!".repeat(depth)), st),
         "json-array" => json_text(&rep("[", "", "]"), st),
